@@ -46,6 +46,8 @@ Expect(s, ev) ==
              okV == /\ ev.panic = ""
                     /\ IF r.ok THEN ev.err = "" /\ ev.out = Prefix(ev) \o r.pt
                                ELSE /\ ev.err # "" /\ ev.nil_on_err /\ ev.out = <<>>
+                                    \* what the caller already had in dst is still there after a refused message
+                                    /\ (Inplace(ev) \/ ev.prefix_after = ev.prefix)
                                     \* "no plaintext": what the call left in the caller's buffer (spare capacity of
                                     \* dst, or the input itself when opening in place) is not the decryption of the body
                                     /\ (ev.spill_clean \/ Len(ev.spill) < 4
